@@ -443,11 +443,18 @@ func CDSRegion2fromGFF(fs []gff.Feature, refSeqDegapped string) (Region, error) 
 	pos := make([]int, 0)
 	switch fs[0].Strand {
 	case "+":
-		for _, f := range fs {
+		for k, f := range fs {
 			if f.Strand != "+" {
 				return r, errors.New("Error parsing gff: mixed strands within a single ID")
 			}
-			for i := f.Start + f.Phase; i <= f.End; i++ {
+			// only the first row's phase removes bases from the coding sequence: on a continuation row
+			// the phase says where the next whole codon starts, and the bases before that complete the
+			// codon that was begun on the previous row
+			first := f.Start
+			if k == 0 {
+				first += f.Phase
+			}
+			for i := first; i <= f.End; i++ {
 				pos = append(pos, i)
 			}
 		}
@@ -470,7 +477,12 @@ func CDSRegion2fromGFF(fs []gff.Feature, refSeqDegapped string) (Region, error) 
 			if f.Strand != "-" {
 				return r, errors.New("Error parsing gff: mixed strands within a single ID")
 			}
-			for i := f.End - f.Phase; i >= f.Start; i-- {
+			// (as above: the first row in coding direction is the last one here)
+			first := f.End
+			if j == len(fs)-1 {
+				first -= f.Phase
+			}
+			for i := first; i >= f.Start; i-- {
 				pos = append(pos, i)
 			}
 		}
